@@ -560,13 +560,26 @@ func (p *Parser) parseCommodityDirective(startPos Position) ast.Directive {
 func (p *Parser) parseIncludeDirective(startPos Position) ast.Directive {
 	// The path is the source text from its first to its last token: token values alone
 	// carry neither the blanks between tokens nor the delimiters of a quoted token.
-	from, to := p.current.Pos.Offset, p.current.Pos.Offset
+	first := p.current.Pos
+	from, to := first.Offset, first.Offset
 	for p.current.Type != TokenNewline && p.current.Type != TokenEOF && p.current.Type != TokenComment {
 		to = p.current.End.Offset
 		p.advance()
 	}
 
-	pathStr := strings.TrimSpace(p.lexer.input[from:to])
+	raw := p.lexer.input[from:to]
+	pathStr := strings.TrimSpace(raw)
+	lead := strings.Index(raw, pathStr)
+	pathStart := ast.Position{
+		Line:   first.Line,
+		Column: first.Column + utf8.RuneCountInString(raw[:lead]),
+		Offset: from + lead,
+	}
+	pathEnd := ast.Position{
+		Line:   first.Line,
+		Column: pathStart.Column + utf8.RuneCountInString(pathStr),
+		Offset: pathStart.Offset + len(pathStr),
+	}
 	if len(pathStr) >= 2 && pathStr[0] == '"' && pathStr[len(pathStr)-1] == '"' {
 		pathStr = pathStr[1 : len(pathStr)-1]
 	}
@@ -577,8 +590,9 @@ func (p *Parser) parseIncludeDirective(startPos Position) ast.Directive {
 	}
 
 	inc := ast.Include{
-		Path:  pathStr,
-		Range: ast.Range{Start: toASTPosition(startPos)},
+		Path:      pathStr,
+		PathRange: ast.Range{Start: pathStart, End: pathEnd},
+		Range:     ast.Range{Start: toASTPosition(startPos)},
 	}
 	inc.Range.End = toASTPosition(p.current.Pos)
 	p.skipToNextLine()
